@@ -136,6 +136,17 @@ class Registry:
             reg.recdefs[name] = (f, list(params), res, body, sm)
             return f
 
+        def pseudo_base(name, classes):
+            "duck-typed union: `name` acts as a common base class of `classes` (no methods of its own)"
+            from .front import Repo, EXTERNAL_BASES
+            EXTERNAL_BASES.setdefault(name, [])
+            Repo.pseudo.add(name)
+            for c in classes:
+                Repo.extra_bases.setdefault(c, [])
+                if name not in Repo.extra_bases[c]:
+                    Repo.extra_bases[c].append(name)
+            return name
+
         def lemma(name, **kw):
             kw["module"] = sm
             reg.lemmas[name] = kw
@@ -152,12 +163,12 @@ class Registry:
         from .sym_call import PYVAL
         ns["PYVAL"] = PYVAL
         ns.update(contract=contract, field=field, glob=glob, record=record, uninterpreted=uninterpreted, lemma=lemma,
-                  ghost=ghost, inline=inline, recursive=recursive, no_inline=no_inline, REG=reg)
+                  ghost=ghost, inline=inline, recursive=recursive, pseudo_base=pseudo_base, no_inline=no_inline, REG=reg)
         ns.update(self.shared)
         sm.ns = ns
         exec(compile(sm.src, path, "exec"), ns)
         for k, v in ns.items():
-            if isinstance(v, (Sort, str, int)) and not k.startswith("_"):
+            if isinstance(v, (Sort, str, int, list, dict, tuple)) and not k.startswith("_"):
                 self.shared[k] = v
         return sm
 
